@@ -562,6 +562,8 @@ inline scope_t * call_scope_t::get<scope_t *>(std::size_t index, bool) {
 template <>
 inline expr_t::ptr_op_t
 call_scope_t::get<expr_t::ptr_op_t>(std::size_t index, bool) {
+  if (index >= args.size())
+    throw_(calc_error, _("Too few arguments to function"));
   return args[index].as_any<expr_t::ptr_op_t>();
 }
 
